@@ -233,6 +233,9 @@ func (el *eventloop) open(c *conn) error {
 	c.opened = true
 
 	out, action := el.eventHandler.OnOpen(c)
+	if !c.opened { // closed inside OnOpen: neither the reply nor the poller may touch its fd anymore
+		return nil
+	}
 	if out != nil {
 		if err := c.open(out); err != nil {
 			return el.close(c, os.NewSyscallError("write", err))
